@@ -112,3 +112,93 @@ def countKind (k : VKind) (its : List VItem) : Nat := (its.filter (fun it => it.
 def firstOfKind (k : VKind) (its : List VItem) : Option VItem := its.find? (fun it => it.kind? == some k)
 
 end Strum
+
+namespace Strum
+
+/-! ### enum level: `get_type_properties` (helpers/type_props.rs:37-150) -/
+
+/-- one item of a `#[strum(..)]` list on the enum -/
+inductive EItem
+  | serializeAll (s : String)
+  | ci
+  | pfx (p : Bytes)
+  | usePhf
+  | parseErrTy
+  | parseErrFn
+  | constIntoStr
+  | cratePath
+  deriving DecidableEq, Repr
+
+inductive EKind
+  | serializeAll | ci | pfx | usePhf | parseErrTy | parseErrFn | constIntoStr | cratePath
+  deriving DecidableEq, Repr
+
+def EItem.kind : EItem → EKind
+  | .serializeAll _ => .serializeAll
+  | .ci => .ci
+  | .pfx _ => .pfx
+  | .usePhf => .usePhf
+  | .parseErrTy => .parseErrTy
+  | .parseErrFn => .parseErrFn
+  | .constIntoStr => .constIntoStr
+  | .cratePath => .cratePath
+
+/-- an enum header as written -/
+structure RawEnum where
+  name : Bytes := []
+  /-- one list of items per `#[strum(..)]` attribute on the enum, in source order -/
+  attrs : List (List EItem) := []
+  reprAttrs : List (List ReprHint) := []
+  discName : Option Bytes := none
+  discVis : Nat := 0
+  deriving Repr
+
+inductive ECollectErr
+  /-- `serialize_all = ".."` names no known style: the attribute fails to PARSE (metadata.rs), before any other check -/
+  | badStyle
+  | dup (k : EKind)
+  deriving DecidableEq, Repr
+
+structure ECollectState where
+  d : EnumDef
+  seen : List EKind := []
+  hasTy : Bool := false
+  hasFn : Bool := false
+
+def applyEItem (st : ECollectState) : EItem → ECollectState
+  | .serializeAll s => { st with d := { st.d with style := parseStyle s } }
+  | .ci => { st with d := { st.d with ci := true } }
+  | .pfx p => { st with d := { st.d with pfx := some p } }
+  | .usePhf => { st with d := { st.d with usePhf := true } }
+  | .parseErrTy => { st with hasTy := true }
+  | .parseErrFn => { st with hasFn := true }
+  | .constIntoStr => { st with d := { st.d with constIntoStr := true } }
+  | .cratePath => st
+
+def collectEStep (st : ECollectState) (it : EItem) : Except ECollectErr ECollectState :=
+  if st.seen.contains it.kind then .error (.dup it.kind)
+  else .ok { applyEItem st it with seen := it.kind :: st.seen }
+
+def collectEItems : ECollectState → List EItem → Except ECollectErr ECollectState
+  | st, [] => .ok st
+  | st, it :: its =>
+    match collectEStep st it with
+    | .error e => .error e
+    | .ok st' => collectEItems st' its
+
+def styleOk : EItem → Bool
+  | .serializeAll s => (parseStyle s).isSome
+  | _ => true
+
+/-- `get_type_properties`: every attribute is parsed first (an unknown style string is a parse error), then one pass with the
+    occurrence checks; `customErr` holds when both halves of the custom error are given -/
+def collectEnum (r : RawEnum) (variants : List Variant) : Except ECollectErr EnumDef :=
+  let its := r.attrs.flatten
+  if !its.all styleOk then .error .badStyle
+  else
+    match collectEItems { d := { name := r.name, reprAttrs := r.reprAttrs, discName := r.discName, discVis := r.discVis,
+                                  variants := variants } } its with
+    | .error e => .error e
+    | .ok st => .ok { st.d with customErr := st.hasTy && st.hasFn }
+
+end Strum
